@@ -82,8 +82,13 @@ theorem clustersWithinComponents_complete (n : Nat) (A : Nat → Nat → Rat) (c
       have self : ∀ k, (reachK n A u k).getD u false = true := by
         intro k
         induction k with
-        | zero => simp [reachK, tab_getD, hu']
-        | succ k ih => simp [reachK, tab_getD, hu', ih]
+        | zero =>
+          show (tab n fun v => v == u).getD u false = true
+          rw [tab_getD, if_pos hu']; exact beq_self_eq_true u
+        | succ k ih =>
+          show (tab n fun w => (reachK n A u k).getD w false ||
+            (List.range n).any fun v => (reachK n A u k).getD v false && linked A v w).getD u false = true
+          rw [tab_getD, if_pos hu', ih, Bool.true_or]
       exact self n
     · have hne : (c u != c v) = true := by simp [huv]
       rw [hne, Bool.true_or]
